@@ -710,7 +710,7 @@ def run(ctx):
     evaluate(ctx, 'mutations-small', 'mut', m_small)
     ctx.set_exhaustive('mutations-small', True)
     m_rand = []
-    for _ in range(ctx.budget(200, 3500)):
+    for _ in range(ctx.budget(260, 5000)):
         par = random_graph_spec(rng)
         for fn in MUTATIONS:
             m_rand.append(mutation_spec(rng, fn, par))
@@ -725,7 +725,7 @@ def run(ctx):
                 c_small.append(crossover_spec(rng, fn, permute(rng, par) if k else par, par2=rng.choice(shapes)))
     evaluate(ctx, 'crossovers-small', 'cx', c_small)
     c_rand = []
-    for _ in range(ctx.budget(150, 2500)):
+    for _ in range(ctx.budget(200, 3500)):
         par = random_graph_spec(rng, 8)
         for fn in CROSSOVERS:
             c_rand.append(crossover_spec(rng, fn, par))
